@@ -65,6 +65,8 @@ THEOREMS = [
     "PV.C04.indentGo_tab_after_space",
     "PV.C04.indentGo_dedent_unknown",
     "PV.C04.lexStringBody_closed_iff",
+    "PV.C04.bytesLit_rejects_nonAscii",
+    "PV.C04.bytesLit_nonAscii_only",
 ]
 TRUSTED = [
     "Lean 4.33.0 kernel; axioms limited to propext, Classical.choice, Quot.sound",
@@ -214,6 +216,7 @@ def render_indent(enc):
     return "".join(out), [(l.split(":")[0], l.split(":")[1]) for l in lines], starts
 
 
+BQUOTES = {"s": "'", "d": '"', "S": "'''", "D": '"""'}
 STRS = {"b": "b'x'", "s": "'x'", "f": "f'x'", "u": "u'x'", "r": "r'x'", "R": "rb'x'", "F": "rf'x'"}
 
 
@@ -247,6 +250,9 @@ def request_text(req):
         return unhex(ws[2]).decode(), " ".join(STRS[c] for c in ws[1]), unhex(ws[3]).decode()
     if op == "bytes":
         return unhex(ws[2]).decode() + "b'", unhex(ws[1]).decode(), "'" + unhex(ws[3]).decode()
+    if op == "byteslit":
+        qt = BQUOTES[ws[2]]
+        return unhex(ws[4]).decode() + ws[1] + qt, unhex(ws[3]).decode(), qt + unhex(ws[5]).decode()
     return None
 
 
@@ -635,6 +641,29 @@ def oracle(req, out):
                 return _judge([("Other", [(pos, pos + L)])], out, f"non-ASCII character in bytes literal {body!r}")
             pos += L
         return None
+    if op == "byteslit":
+        # "Bytes literals may only contain ASCII characters" -- wherever the character stands: plain, after a
+        # backslash, after another escape, inside an escape.  Inside `\x..` the error may be the escape's own.
+        body = unhex(ws[3]).decode()
+        pos = 0
+        for ch in body:
+            L = len(ch.encode())
+            if ord(ch) >= 128:
+                r = _parse_out(out)
+                if r is None:
+                    return f"non-ASCII character in bytes literal {ws[1]}{body!r} was accepted"
+                if r == "?":
+                    return f"unparsable answer {out!r}"
+                kind, off = r
+                if kind not in ("Other", "UnicodeError", "StringError"):
+                    return f"bytes literal {ws[1]}{body!r}: rejected as {kind}"
+                if not (0 <= off <= pos + L):
+                    return f"bytes literal {ws[1]}{body!r}: offset {off} not at or before the character at {pos}..{pos + L}"
+                if kind == "Other" and off != pos + L and "\\" not in body[:body.index(ch)]:
+                    return f"bytes literal {ws[1]}{body!r}: offset {off}, the character ends at {pos + L}"
+                return None
+            pos += L
+        return None
     if op == "fstr":
         body = unhex(ws[1]).decode()
         if py_rejects("f'" + body + "'"):
@@ -745,7 +774,7 @@ def search(ctx, disagreements, bins):
             cand += [f"paren {ws[1]} {ctx_args(c)}" for c in PAREN_SITES]
         elif op == "aspat":
             cand += [f"aspat {p} {ws[2]} {ctx_args(c)}" for p in range(len(PATTERNS)) for c in ASPAT_SITES]
-        elif op in ("brackets", "indent", "num", "chr", "cont", "strlex", "fstr", "strs", "bytes"):
+        elif op in ("brackets", "indent", "num", "chr", "cont", "strlex", "fstr", "strs", "bytes", "byteslit"):
             cand.append(e["request"])
     cand = list(dict.fromkeys(cand))[:20000]
     if not cand:
@@ -805,6 +834,11 @@ def pre_build(ctx):
     check("string literals", [one(w, spec_strlex(w) is not None) for w in words(STR_ALPHA, 5, 1)])
     check("characters", [one("x" + chr(c) + ("=" if e else "") + "y", spec_chr(c, e) is not None)
                          for c in range(128) for e in (0, 1)])
+    def byt(req):
+        pre, mid, post = request_text(req)
+        return both(pre + mid + post, any(ord(ch) >= 128 for ch in mid)) if any(ord(ch) >= 128 for ch in mid) else None
+    check("non-ASCII in bytes literals (every position)",
+          [byt(r) for r in bytes_requests(3, [("b", "s"), ("rb", "s"), ("b", "D")], BYTES_SITES[:1])])
     check("literal concatenations", [both(" ".join(STRS[c] for c in w), any(c in "bR" for c in w) and
                                           not all(c in "bR" for c in w)) for w in words("bsfurRF", 3, 1)])
     return res
@@ -944,6 +978,8 @@ def _violating(req):
             return any(k) and not all(k)
         if op == "bytes":
             return any(ord(c) >= 128 for c in unhex(ws[1]).decode())
+        if op == "byteslit":
+            return any(ord(c) >= 128 for c in unhex(ws[3]).decode())
         if op == "fstr":
             return bool(py_rejects("f'" + unhex(ws[1]).decode() + "'"))
     except Exception:
@@ -1069,6 +1105,34 @@ def random_streams(ctx):
     return out
 
 
+BYTES_ALPHA = ["a", "é", "😀", "\\", "x", "4", "0", "7", "n", "N", "u"]
+BYTES_SITES = [("", "\n"), ("y = ", "\n"), ("f(", ")\n"), ("b'a' ", "\n"), ("y = [b\"q\", ", "]\n"),
+               ("match s:\n case ", ":\n  pass\n"), ("", " b'z'\n")]
+
+
+def _odd_trailing_backslash(body):
+    i, n = 0, len(body)
+    while i < n:
+        if body[i] == "\\":
+            if i + 1 == n:
+                return True
+            i += 2
+        else:
+            i += 1
+    return False
+
+
+def bytes_requests(maxlen, kinds, sites):
+    out = []
+    for body in words(BYTES_ALPHA, maxlen, 0):
+        if _odd_trailing_backslash(body):
+            continue        # the lexer pairs `\` with the closing quote: an unterminated literal, other rule
+        for pfx, qt in kinds:
+            for c in sites:
+                out.append(f"byteslit {pfx} {qt} {hexs(body)} {ctx_args(c)}")
+    return out
+
+
 NUM_ALPHA = "019_.e+jxboa"
 FSTR_ALPHA = "{}y!r:=\\"
 STR_ALPHA = "'\"a\\\n"
@@ -1101,6 +1165,13 @@ def streams(ctx):
     for b in ["{", "}", "{}", "{y!}", "{y!z}", "{y!r", "{y=}", "{y:{r:{y}}}", "{\\}", "{y", "{{}", "{y!rr}", "{!r}",
               "{y==r}", "{y=!r:}", "{:}", "\\{y}", "{y:\\}}", "\\"]:
         corpus.append(f"fstr {hexs(b)}")
+    for body in ["\\é", "a\\é", "\\x41é", "\\x41\\é", "\\7é", "\\0\\é", "é", "aé", "\\n\\é", "\\\\é", "\\é\\", "\\xé1", "\\x4é",
+                 "\\N\\é", "\\u\\😀"]:
+        if _odd_trailing_backslash(body):
+            continue
+        for pfx, qt in [("b", "s"), ("b", "d"), ("b", "D"), ("rb", "s"), ("Rb", "S")]:
+            for c in (BYTES_SITES[0], BYTES_SITES[3]):
+                corpus.append(f"byteslit {pfx} {qt} {hexs(body)} {ctx_args(c)}")
     out.append(Stream("corpus", corpus, kind="corpus", nontrivial=_violating))
 
     # ---- (1) exhaustive small scope of the abstract operations
@@ -1147,6 +1218,15 @@ def streams(ctx):
                       kind="exhaustive", exhaustive=True, nontrivial=_violating,
                       note="all f-string bodies over { } y ! r : = backslash"))
 
+    Lb = 4 if q else 5
+    out.append(Stream(f"bytes-literal-exhaustive-len<={Lb}",
+                      bytes_requests(Lb, [("b", "s"), ("rb", "s"), ("B", "D"), ("bR", "d")], BYTES_SITES[:1]) +
+                      bytes_requests(3, [("b", "s"), ("b", "S"), ("Rb", "D"), ("br", "d")], BYTES_SITES[1:]),
+                      kind="exhaustive", exhaustive=True, nontrivial=_violating,
+                      note="every bytes-literal body over { a, e-acute, emoji, backslash, x, 4, 0, 7, n, N, u }: a non-ASCII "
+                           "character at every position class (plain, after a backslash, after \\x41 / octal / \\n, inside "
+                           "\\x.., first, last), plain/raw prefixes, all four quote styles, as statement, in calls, lists, "
+                           "patterns and implicit concatenations"))
     Lk = 5 if q else 7
     out.append(Stream(f"softkw-lookahead-exhaustive-len<={Lk}", [f"softkw {hexs(w)}" for w in words("s:()l$", Lk)],
                       kind="exhaustive", exhaustive=True, nontrivial=lambda r: "24" in r.split()[1],
